@@ -259,8 +259,7 @@ def rx_search(s: str, found: bool, use_sel: bool, w: str, s0: int, e0: int, g1: 
             exp = expected_view(m)
         else:
             exp = w
-        return (got == exp and (got is None) == (exp is None) and pat.calls == [('search', s)]
-                and list(parent.keys()) == ['$keep'])
+        return got == exp and (got is None) == (exp is None) and pat.calls == [('search', s)] and parent['$keep'] == 7
     return H.done(guarded(run))
 
 
@@ -282,7 +281,7 @@ def rx_search_all(s: str, k: int, use_sel: bool, w: str, s0: int, e0: int, g1: O
         it = rx.search_all(parent, pat, s, view) if use_sel else rx.search_all(parent, pat, s)
         got = list(it)
         exp = [expected_view(m) if use_sel else m._whole[0] for m in ms]
-        return got == exp and pat.calls == [('finditer', s)] and list(parent.keys()) == ['$keep']
+        return got == exp and pat.calls == [('finditer', s)] and parent['$keep'] == 7
     return H.done(guarded(run))
 
 
